@@ -195,8 +195,8 @@ func runSelftest() int {
 	fails += mism
 	report["wall_s"] = time.Since(t0).Seconds()
 	b, _ := json.MarshalIndent(report, "", " ")
-	os.MkdirAll(filepath.Join(verifDir, "evidence"), 0o755)
-	os.WriteFile(filepath.Join(verifDir, "evidence", "selftest.json"), b, 0o644)
+	os.MkdirAll(filepath.Join(outDir, "evidence"), 0o755)
+	os.WriteFile(filepath.Join(outDir, "evidence", "selftest.json"), b, 0o644)
 	fmt.Println(string(b))
 	if fails > 0 {
 		fmt.Printf("SELFTEST FAILED: %d problems\n", fails)
